@@ -13,6 +13,7 @@ from liquid2.builtin import Filter
 from liquid2.builtin import KeywordArgument
 from liquid2.builtin import PositionalArgument
 from liquid2.builtin import StringLiteral
+from liquid2.exceptions import LiquidTypeError
 from liquid2.filter import int_arg
 from liquid2.messages import MESSAGES
 from liquid2.messages import MessageText
@@ -80,10 +81,19 @@ class BaseTranslateFilter:
         return message_text % _vars
 
     def _resolve_translations(self, context: RenderContext) -> Translations:
-        return cast(
-            Translations,
-            context.resolve(self.translations_var, self.default_translations),
+        translations = context.resolve(
+            self.translations_var, self.default_translations
         )
+        if not all(
+            callable(getattr(translations, name, None))
+            for name in ("gettext", "ngettext", "pgettext", "npgettext")
+        ):
+            raise LiquidTypeError(
+                f"expected '{self.translations_var}' to be a translations object, "
+                f"found {translations.__class__.__name__}",
+                token=None,
+            )
+        return cast(Translations, translations)
 
 
 class Translate(BaseTranslateFilter, TranslatableFilter):
